@@ -4,7 +4,7 @@
 cd /verif || exit 2
 ids=("$@"); [ ${#ids[@]} -eq 0 ] && ids=($(ls seeded))
 for id in "${ids[@]}"; do
-  d=seeded/$id
+  d=/verif/seeded/$id
   checks=$(python3 -c "import json;print(' '.join(json.load(open('$d/meta.json')).get('caught_by') or []))")
   [ -z "$checks" ] && { echo "$id: no check named"; continue; }
   out=$(tools/try_seeded_wt.sh "$d" $checks 2>&1)
